@@ -27,6 +27,20 @@ fn parse_debug(s: &str) -> Vec<(f64, (u8, u8, u8))> {
     out
 }
 
+/// What a `Fraction` is, stated independently of `Fraction::from`: the value clamped to [0,1]
+/// (nothing else moves; NaN is read as 1, as `clamp(0, 1, NaN)` does).
+fn frac(p: f64) -> f64 {
+    if p.is_nan() {
+        1.0
+    } else if p < 0.0 {
+        0.0
+    } else if p > 1.0 {
+        1.0
+    } else {
+        p
+    }
+}
+
 fn rgb(c: &Color) -> (u8, u8, u8) {
     let q = c.to_rgba();
     (q.r, q.g, q.b)
@@ -55,7 +69,7 @@ fn history(s: &mut Session, adds: &[(f64, Color)], samples: &[f64], space: &str,
     // --- oracle: the scale is the map position -> most recently added colour, sorted ---
     let mut expect: Vec<(f64, (u8, u8, u8))> = vec![];
     for (p, c) in adds {
-        let p = Fraction::from(*p).value();
+        let p = frac(*p);
         if let Some(e) = expect.iter_mut().find(|e| e.0 == p) {
             e.1 = rgb(c);
         } else {
@@ -70,7 +84,7 @@ fn history(s: &mut Session, adds: &[(f64, Color)], samples: &[f64], space: &str,
     // colours of the stops as Color values (last write per position)
     let mut stop_cols: Vec<(f64, Color)> = vec![];
     for (p, c) in adds {
-        let p = Fraction::from(*p).value();
+        let p = frac(*p);
         if let Some(e) = stop_cols.iter_mut().find(|e| e.0 == p) {
             e.1 = c.clone();
         } else {
@@ -94,7 +108,7 @@ fn history(s: &mut Session, adds: &[(f64, Color)], samples: &[f64], space: &str,
             None => s.op(op, vec![x("none")], nontrivial),
             Some(c) => s.op(op, ok(c_out(c)), nontrivial),
         }
-        let qv = Fraction::from(q).value();
+        let qv = frac(q);
         let n = stop_cols.len();
         let outside = n < 2 || qv < stop_cols[0].0 || qv > stop_cols[n - 1].0;
         if outside {
@@ -143,11 +157,20 @@ pub fn run(s: &mut Session, ctx: &Ctx) {
                 .collect();
             let sp = MIX_SPACES[code % 6];
             // a history is non-trivial when a position repeats or an insertion is out of order
-            let ps: Vec<f64> = adds.iter().map(|a| Fraction::from(a.0).value()).collect();
+            let ps: Vec<f64> = adds.iter().map(|a| frac(a.0)).collect();
             let nontrivial = (0..ps.len()).any(|i| (0..i).any(|j| ps[j] == ps[i] || ps[j] > ps[i]));
             history(s, &adds, &samples, sp, nontrivial);
             count += 1;
         }
+    }
+    // ---- positions next to the ends and next to each other: distinct positions stay distinct stops ----
+    let near = [0.0, 5e-324, 1e-300, 1e-12, 1e-9, 1e-6, 0.5 - 1e-12, 0.5, 0.5 + 1e-12, 1.0 - 1e-6, 1.0 - 1e-9, 1.0 - 1e-12, 1.0 - f64::EPSILON / 2.0, 1.0];
+    let near_samples = [0.0, 5e-324, 1e-13, 1e-12, 2e-12, 1e-9, 0.25, 0.5, 1.0 - 1e-9, 1.0 - 2e-12, 1.0 - 1e-12, 1.0 - 1e-13, 1.0];
+    for k in 0..(if ctx.thorough { 3000 } else { 400 }) {
+        let len = 2 + rng.below(3) as usize;
+        let adds: Vec<(f64, Color)> = (0..len).map(|_| (near[rng.below(near.len() as u64) as usize], gen::color8(&mut rng))).collect();
+        history(s, &adds, &near_samples, MIX_SPACES[k % 6], true);
+        count += 1;
     }
     s.tag_n("histories:exhaustive", count);
     s.exhaustive.push(format!("all add-stop histories of length <= {} over 8 positions x 3 colours, 9 sample points each", max_len));
